@@ -41,10 +41,35 @@ def run(ctx):
     for i, s in enumerate(r.dump):
         vectors.append({"xs": list(s["xs"]), "order": s["order"], "x": s["x"], "verdict": s["verdict"], "prev": s["prev"],
                         "wstart": s["wstart"], "wstop": s["wstop"], "scale": [1.0, 30.0, 0.25][i % 3], "ephem": i % 7 == 0})
+    # ---- long tables with a systematic drift of the step (+-5 %): search and window only (the polynomial identity does
+    #      not depend on the table length and is proved on the short tables above)
+    def drift(n1, s1, n2, s2, n3=0, s3=0):
+        g, x = [0], 0
+        for k, st in ((n1, s1), (n2, s2), (n3, s3)):
+            for _ in range(k):
+                x += st
+                g.append(x)
+        return g
+    longs = [drift(40, 19, 40, 21), drift(40, 21, 40, 19), drift(30, 20, 30, 19, 30, 21)]
+    if thorough:
+        longs += [drift(100, 19, 100, 21), drift(150, 21, 150, 19)]
+    name3, mc3, cl3 = tlcmod.wrap("Interp", {"Grids": RawTla("{" + ", ".join("<<" + ", ".join(map(str, g)) + ">>" for g in longs) + "}"),
+                                            "Orders": {2, 5, 8, 12}, "Primes": {32749}}, name="MCInterpLong")
+    cfg3 = "INIT Init\nNEXT Next\n" + cl3 + "INVARIANT SearchOK\nINVARIANT WindowOK\nCHECK_DEADLOCK FALSE\n"
+    r3 = ctx.tlc(name3, label=f"Interp long drifting tables ({[len(g) for g in longs]} nodes)", cfg_text=cfg3,
+                 extra_files={name3 + ".tla": mc3}, workers=16, dump=True, timeout=2400)
+    longv = []
+    for i, s in enumerate(r3.dump):
+        longv.append({"xs": list(s["xs"]), "order": s["order"], "x": s["x"], "verdict": s["verdict"], "prev": s["prev"],
+                      "wstart": s["wstart"], "wstop": s["wstop"], "scale": [1.0, 3.0][i % 2], "ephem": i % 23 == 0})
+    if not thorough and len(longv) > 9000:
+        longv = rnd.sample(longv, 9000)
+    ctx.extra["long_table_vectors"] = len(longv)
     if not thorough and len(vectors) > 6000:
         keep = [v for v in vectors if v["verdict"] != "value"]
         vectors = rnd.sample([v for v in vectors if v["verdict"] == "value"], 6000) + rnd.sample(keep, min(len(keep), 800))
         ctx.extra["replay_sampled"] = len(vectors)
+    vectors = vectors + longv
     chunks = [vectors[i::16] for i in range(16) if vectors[i::16]]
     for res in ctx.harness_parallel("interp_replay.py", [{"vectors": c} for c in chunks], procs=16):
         ctx.absorb(res)
